@@ -152,7 +152,7 @@ def template_rule(rng, p, idb):
         return rng.choice(c) if c else None
     a2, b2 = pick(2), pick(2)
     if a2 is None: return gen_rule(rng, p, rng.choice(idb), [rng.below(len(rels))], {})
-    t = rng.below(8)
+    t = rng.below(9)
     c = rng.range(0, 3)
     if t == 0: body = [("let", 9, c), ("cl", a2, [("v", 0), ("v", 1)], []), ("cl", b2, [("v", 1), ("v", 9)], [])]; hv = [0, 1, 9]
     elif t == 1: body = [("for", 9, ("range", 0, rng.range(2, 4))), ("cl", a2, [("v", 0), ("v", 1)], []), ("cl", b2, [("v", 9), ("v", 1)], [])]; hv = [0, 1, 9]
@@ -161,7 +161,10 @@ def template_rule(rng, p, idb):
     elif t == 4: body = [("cl", a2, [("v", 0), ("v", 1)], []), ("cl", b2, [("e", ("add", ("var", 0), 1)), ("v", 2)], [])]; hv = [0, 1, 2]
     elif t == 5: body = [("iflet", 9, ("somex", c)), ("cl", a2, [("v", 0), ("v", 1)], []), ("cl", b2, [("v", 1), ("v", 9)], [("let", 8, ("add", ("var", 0), 1))])]; hv = [0, 8, 9]
     elif t == 6: body = [("cl", a2, [("v", 0), ("v", 1)], []), ("cl", b2, [("v", 1), ("v", 1)], [])]; hv = [0, 1]          # second clause repeats a join variable
-    else: body = [("cl", a2, [("v", 0), ("v", 1)], []), ("cl", b2, [("v", 0), ("v", 0)], []), ("cl", a2, [("v", 1), ("v", 2)], [])]; hv = [0, 1, 2]
+    elif t == 7: body = [("cl", a2, [("v", 0), ("v", 1)], []), ("cl", b2, [("v", 0), ("v", 0)], []), ("cl", a2, [("v", 1), ("v", 2)], [])]; hv = [0, 1, 2]
+    else:
+        # a `let` attached to the first clause whose variable is a COLUMN of the next clause (the index of that clause must use it)
+        body = [("cl", a2, [("v", 0), ("v", 1)], [("let", 8, ("add", ("var", 1), rng.range(0, 1)))]), ("cl", b2, [("v", 8), ("v", 2)] if rng.chance(1, 2) else [("v", 2), ("v", 8)], [])]; hv = [0, 8, 2]
     h = rng.choice(idb)
     ar = rels[h]["arity"]
     if rels[h].get("lat"): return gen_rule(rng, p, h, [a2], {})
